@@ -296,6 +296,58 @@ def pbf_rules(ck, P, rule="R-PBF"):
                      "%s are not written in stored order" % fld, ir.loc(b[0]))
 
 
+def tag_pair_rules(ck, P, rule="R-TABLE-INDEX"):
+    """a feature's tags are (key index, value index) PAIRS: the encoder pushes key then value for every property; the decoder reads
+    tag_ids[2i] as key and tag_ids[2i + 1] as value for i in 0 .. len / 2, and looks the key up in the key table, the value in the value table."""
+    from . import affine as A
+    dec = [b for b in P.bodies if b["q"].endswith("property_manager::PropertyManager::decode_tag_ids")]
+    enc = [b for b in P.bodies if b["q"].endswith("property_manager::PropertyManager::encode_tag_ids")]
+    if not ck.anchor(rule, "encode_tag_ids + decode_tag_ids", dec + enc, 2):
+        return
+    b = dec[0]
+    lp = [n for n in ir.walk_nodes(b["body"]) if n.get("k") == "for"]
+    okd, why = False, "no loop"
+    if len(lp) == 1:
+        it = ir.unparen(lp[0]["iter"])
+        iv = ir.pat_binds(lp[0]["pat"])
+        fl = {f["name"]: f["e"] for f in it.get("fields", [])} if it.get("k") == "struct" else {}
+        start = ir.const_eval(fl.get("start"), {}) if "start" in fl else None
+        end = A.show_stable(A.ev(fl.get("end"), A.Env())) if "end" in fl else "?"
+        idx = [y for y in ir.walk_nodes(lp[0]["body"]) if y.get("k") == "index"]
+        terms = []
+        env = A.Env()
+        for y in idx:
+            terms.append(A.ev(y["i"], env))
+        i_s = A.local_sym(iv[0]) if len(iv) == 1 else A.TOP
+        want = [A.mul(i_s, A.const(2)), A.add(A.mul(i_s, A.const(2)), A.const(1))]
+        roles = {}
+        lets = {y["pat"]["hid"]: y["init"] for y in ir.walk_nodes(lp[0]["body"]) if y.get("k") == "let" and "init" in y and y["pat"].get("k") == "bind"}
+        for y in ir.walk_nodes(lp[0]["body"]):
+            if y.get("k") == "mcall" and y.get("name") == "get" and y.get("a") and ir.place_str(y["recv"]) in ("self.key", "self.val"):
+                h = ir.local_hid(y["a"][0])
+                t = A.ev(lets[h], env) if h in lets and ir.contains(lets[h], lambda z: z.get("k") == "index") else None
+                if t is not None:
+                    ix = [z for z in ir.walk_nodes(lets[h]) if z.get("k") == "index"][0]
+                    roles[ir.place_str(y["recv"])] = A.ev(ix["i"], env)
+        import re as _re
+        okd = start == 0 and bool(_re.match(r"^\(len\(.+\) / 2\)$", end)) and len(terms) == 2 and A.eq(terms[0], want[0]) and A.eq(terms[1], want[1]) and \
+            A.eq(roles.get("self.key"), want[0]) and A.eq(roles.get("self.val"), want[1])
+        why = "range %s..%s, indices %s, key from %s, value from %s" % (start, end, [A.show(t) for t in terms], A.show(roles.get("self.key")), A.show(roles.get("self.val")))
+    ck.check(okd, rule, b["q"] + "|pairs", "decode: for i in 0..len/2: key = keys[tag_ids[2i]], value = values[tag_ids[2i + 1]]", "tags are not decoded as (key, value) index pairs (%s)" % why, ir.loc(b))
+    b = enc[0]
+    lp = [n for n in ir.walk_nodes(b["body"]) if n.get("k") == "for"]
+    oke = False
+    if len(lp) == 1:
+        pu = [y for y in ir.walk_nodes(lp[0]["body"]) if y.get("k") == "mcall" and y.get("name") == "push" and y.get("a")]
+        kv = ir.pat_binds(lp[0]["pat"])
+        if len(pu) == 2 and len(kv) == 2:
+            def tbl(y):
+                c = [z for z in ir.walk_nodes(y["a"][0]) if z.get("k") == "mcall" and z.get("name") == "add"]
+                return (ir.place_str(c[0]["recv"]), ir.local_hid(c[0]["a"][0])) if c else (None, None)
+            oke = tbl(pu[0]) == ("self.key", kv[0]["hid"]) and tbl(pu[1]) == ("self.val", kv[1]["hid"])
+    ck.check(oke, rule, b["q"] + "|pairs", "encode: for every property push keys.add(key) then values.add(value)", "properties are not encoded as key index followed by value index", ir.loc(b))
+
+
 def varint_rules(ck, P, rule="R-PBF"):
     """base-128 varints (protobuf encoding guide; also PMTiles directories): the reader ORs (byte & 0x7F) << shift into the value for
     every byte, stops after a byte with (byte & 0x80) == 0 and advances the shift by 7; the writer emits (value & 0x7F) | 0x80 and
@@ -450,6 +502,7 @@ def feature_write_rule(ck, P, rule="R-FEATURE-WRITE"):
 def vtlp_rules(ck, P, rule="R-TABLE-INDEX"):
     """VTLPMap keeps `list` (index -> entry) and `map` (entry -> index) as inverse views: for every (v, i) in map, list[i] == v.
     The tag ids written into features are map values, and decoders resolve them through list positions."""
+    tag_pair_rules(ck, P, rule)
     A = affine
     adts = [q for q in P.adts if q.endswith("vector_tile::property_manager::VTLPMap")]
     if not ck.anchor(rule, "VTLPMap", adts, 1):
